@@ -204,7 +204,12 @@ def render_inputs(abstract, rng, variants):
                 idx = int(a["base"][1:]) - 1
                 steps.append({"op": "sql", "sql": OTHER[a["kind"]][idx], "abs": a})
         else:
-            for v in range(variants):
+            for _ in range(variants):
+                # (consecutive variants per class and entry point, starting anywhere: the harness
+                # derives sub-cases from the variant number modulo 2 and modulo 3)
+                ck = a["class"] + "/" + a["via"]
+                cnt[ck] = cnt.get(ck, rng.randrange(6)) + 1
+                v = cnt[ck]
                 st = {"op": "payload", "class": a["class"], "via": a["via"], "var": v, "abs": a}
                 if a["via"] == "raw":
                     d, vv = raw_payload(a["class"], v, rng)
